@@ -13,19 +13,16 @@ EXPLANATION = (
 import props.anchors as anchors
 
 
-def run(ctx, chk):
+def punch_lock_rules(ctx, chk, rid):
     O, P, L = ctx.O, ctx.P, ctx.L
-    anchors.check(ctx, chk, ['punch', 'promote_reads_pending'])
-    flush_before_punch(ctx, chk, "B12.1")
     ph = O.body(PUNCH_HOLES)
-    # B12.2 tail punch under META:W, same guard for the three reads
     tail_sites = O.need_sites(ph, PUNCH, 1)
     for b in tail_sites:
         held = O.held_classes(ph, b)
         for need in (("META", "W"), ("LAYOUT", "R"), ("FILE", "R")):
-            chk.oblige("B12.2 held_at(punch_holes: HolePunch::punch (region tail), %s:%s)" % need, need in held,
+            chk.oblige("%s " % rid + "held_at(punch_holes: HolePunch::punch (region tail), %s:%s)" % need, need in held,
                        detail={"held": sorted(held), "site": ph.blocks[b]["term"].get("span")},
-                       key="B12.2|held_at|tail-punch|%s:%s" % need,
+                       key="%s|held_at|tail-punch|%s:%s" % ((rid,) + need),
                        msg="a region's tail may only be punched while its metadata write lock, the layout read lock "
                            "and the file read lock are held")
     reads = M(r"rawdb::region_metadata::RegionMetadata::(start|len|reserved)")
@@ -36,12 +33,12 @@ def run(ctx, chk):
         g = O.guard_local_of(ph, t["args"][0])
         guards.add(g)
         held = O.held_classes(ph, b)
-        chk.oblige("B12.2 held_at(punch_holes: %s, META:W)" % names(t)[0].split("::")[-1], ("META", "W") in held,
-                   key="B12.2|held_at|meta-read|%s" % names(t)[0].split("::")[-1],
+        chk.oblige("%s " % rid + "held_at(punch_holes: %s, META:W)" % names(t)[0].split("::")[-1], ("META", "W") in held,
+                   key="%s|held_at|meta-read|%s" % (rid, names(t)[0].split("::")[-1]),
                    msg="the tail range must be computed from metadata read under the region's metadata write lock")
     ok = len(guards) == 1 and None not in guards and len(ph.defs().get(list(guards)[0], [])) == 1
-    chk.oblige("B12.2 same_guard(punch_holes: start, len, reserved read through one META guard)", ok,
-               detail={"guard_locals": sorted(str(g) for g in guards)}, key="B12.2|same_guard|punch_holes",
+    chk.oblige("%s " % rid + "same_guard(punch_holes: start, len, reserved read through one META guard)", ok,
+               detail={"guard_locals": sorted(str(g) for g in guards)}, key="%s|same_guard|punch_holes" % rid,
                msg="(start,len,reserved) of a region must be one consistent snapshot")
     # parallel punch of layout holes: the closure runs inside a call made while LAYOUT:R and FILE:R are held
     clos = [k for k in P.children.get(PUNCH_HOLES, []) if O.sites(P.bodies[k], PUNCH)]
@@ -64,11 +61,20 @@ def run(ctx, chk):
         if not any(x in nm for x in ("sum", "collect", "for_each", "count", "reduce")):
             continue
         for need in (("LAYOUT", "R"), ("FILE", "R")):
-            chk.oblige("B12.2 held_at(punch_holes: parallel punch of layout holes via %s, %s:%s)" % (
+            chk.oblige("%s " % rid + "held_at(punch_holes: parallel punch of layout holes via %s, %s:%s)" % (
                 nm.split("::")[-1], need[0], need[1]), need in held, detail={"held": sorted(held)},
-                key="B12.2|held_at|hole-punch|%s:%s" % need,
+                key="%s|held_at|hole-punch|%s:%s" % ((rid,) + need),
                 msg="free extents may only be punched while the layout read lock (no allocation can take the hole) "
                     "and the file read lock are held")
+
+
+def run(ctx, chk):
+    O, P, L = ctx.O, ctx.P, ctx.L
+    anchors.check(ctx, chk, ['punch', 'promote_reads_pending'])
+    flush_before_punch(ctx, chk, "B12.1")
+    punch_lock_rules(ctx, chk, "B12.2")
+    ph = O.body(PUNCH_HOLES)
+    tail_sites = O.need_sites(ph, PUNCH, 1)
     # B12.3 KEEP_SIZE
     hp = O.body("rawdb::hole_punch::HolePunch::punch")
     fa = O.need_sites(hp, M(r"libc::.*::fallocate"), 1)
